@@ -89,6 +89,7 @@ def run(eng, tier):
                         eng.ob(dom.eq(nremq, MUL(bs.P, nremb)), PROP, 'I4', v, '%s: after the operation unspent quote %s != price x unfilled size %s' % (v, dom.show(nremq), dom.show(MUL(bs.P, nremb))), where=w['site'], detail=p.describe(12),
                                sample={'rule': 'I4', 'writer': v, 'unspent_quote': dom.show(nremq)})
             remove_iff_zero(eng, PROP, p)
+            if v in ('ExecuteMatch', 'CancelBid', 'ExpireBid', 'RejectBid', 'CreateBid'): check_exact_conversions(eng, PROP, p)
     # creation establishes I4 and zero accumulators (from the admission guard total == quote_size)
     for p in eng.paths('execute', 'ok', 'CreateBid'):
         v = 'CreateBid'
